@@ -266,6 +266,11 @@ impl<S: Read + Write> Client<S> {
     pub fn shutdown(&mut self) -> RdpResult<()> {
         self.transport.shutdown()
     }
+
+    /// Number of bytes that can be read without waiting for the socket
+    pub fn pending(&self) -> usize {
+        self.transport.pending()
+    }
 }
 
 #[cfg(test)]
